@@ -152,7 +152,7 @@ def resolve(spec):
             })
 
     for m in spec['modules']:
-        if m.get('fail') or m.get('style') in ('bad_suite', 'raising_suite'):
+        if m.get('fail') or m.get('style') in ('bad_suite', 'raising_suite', 'empty_suite'):
             continue
         walk(m['tree'], runtime.test_modname(spec, m), UNIT, 1)
     return out
